@@ -5,6 +5,7 @@ import MdkVerif.Proofs.Fork
 import MdkVerif.Proofs.ForkInv
 import MdkVerif.Proofs.Chain
 import MdkVerif.Props.C01Fork
+import MdkVerif.Props.C08
 /-
   C01 — the lift of the single-fork theorems (Props/C01Fork.lean) to MANY CLIENTS and to CHAINS OF FORKS
   (DESIGN §6 C01 T(4), §13.7).
@@ -206,6 +207,48 @@ theorem deliver_frame (fuel nx : Nat) (c : Cl) (e : Ev) :
   · intro n hn
     exact (frame_deliverN fuel nx c e n hn).recs (fun o => o.isSome = (getRec c n).isSome)
       (fun o ho => by rw [← ho]; cases o <;> rfl) rfl
+
+/-- **consumed_frame**: for every state whose snapshots hold sub-lists of the current list of consumed
+    ratchet generations, oldest first (`ConsMono`), every event and every fuel: the consumed list after
+    `process_message` ⊆ the old one ∪ {the event's ciphertext}, and the invariant is kept -/
+theorem consumed_frame (fuel nx : Nat) (c : Cl) (e : Ev) (h : ConsMono c) :
+    (∀ x ∈ (deliverN fuel nx c e).1.g.consumed, x ∈ c.g.consumed ∨ x = e.cipher) ∧ ConsMono (deliverN fuel nx c e).1 :=
+  ⟨(cstep_deliverN fuel nx c e h).sub, (cstep_deliverN fuel nx c e h).inv⟩
+
+/-- `ConsMono` holds of every client state reachable by any history of API calls -/
+theorem consMono_reachable (id : Nat) (p : Bool) (r : Nat) (ms as : List Nat) (name : Nat) (ops : List C08.COp) :
+    ConsMono (ops.foldl C08.cstep (initCl id p r ms as name)) := by
+  have : ∀ (ops : List C08.COp) (c : Cl), ConsMono c → ConsMono (ops.foldl C08.cstep c) := by
+    intro ops
+    induction ops with
+    | nil => intro c h; exact h
+    | cons o os ih =>
+      intro c h
+      apply ih
+      cases o with
+      | deliver e nx => exact (cstep_deliverN 3 nx c e h).inv
+      | send n ts idn mid mts tok => exact consMono_send c n ts idn mid mts tok h
+      | stage n ts idn b na => exact consMono_stageCommit c n ts idn b na h
+      | leave n ts idn => exact consMono_leave c n ts idn h
+      | merge => exact consMono_merge c h
+      | clear => exact consMono_clear c h
+      | restart => exact consMono_restart c h
+  exact this ops _ (consMono_init id p r ms as name)
+
+/-- without the invariant the frame is false: a state (not reachable) whose snapshot of epoch 1 holds a
+    consumed generation 99 the current state does not — the rollback for the better sibling B brings it in -/
+def odd : Cl := { (run 0 b2 [eA]) with mgr := (run 0 b2 [eA]).mgr.map (fun s => { s with saved := { s.saved with consumed := [99] } }) }
+
+theorem consumed_frame_needs_inv :
+    ¬ (∀ (c : Cl) (e : Ev) (nx : Nat), ∀ x ∈ (deliver c e nx).1.g.consumed, x ∈ c.g.consumed ∨ x = e.cipher) := by
+  intro h
+  have := h odd eB 0 99 (by decide)
+  revert this; decide
+
+example : ConsMono (run 0 b2 [eA]) ∧ ∀ x ∈ (deliver (run 0 b2 [eA]) eB 0).1.g.consumed, x ∈ (run 0 b2 [eA]).g.consumed ∨ x = eB.cipher := by
+  have h0 : ConsMono b2 := consMono_init 2 false 5 [0, 1, 2, 3] [0, 1, 3] 1
+  have h1 : ConsMono (run 0 b2 [eA]) := (consumed_frame 3 0 b2 eA h0).2
+  exact ⟨h1, (consumed_frame 3 0 _ eB h1).1⟩
 
 /-- after a fork level (any role, any delivery list over the fork) the per-client hypotheses of the
     single-fork theorems hold again, one epoch later: group present, retention, stored secrets following
